@@ -102,6 +102,17 @@ pub enum Encoding {
     Unknown,
 }
 
+/// How a response that has already begun is cut off.
+#[derive(Clone, Copy, PartialEq, Eq, Hash, Debug, Serialize, Deserialize)]
+pub enum Abort {
+    /// gRPC: RST_STREAM(INTERNAL_ERROR) on that stream, the connection lives on
+    RstStream,
+    /// gRPC: connection-level GOAWAY(INTERNAL_ERROR), which also ends the open stream
+    Goaway,
+    /// the TCP connection is dropped
+    DropConnection,
+}
+
 /// What the collector does with one request.
 #[derive(Clone, PartialEq, Eq, Debug, Serialize, Deserialize)]
 pub enum Decision {
@@ -140,6 +151,13 @@ pub enum Decision {
     /// the script); `false`: the collector stops reading the connection altogether (gRPC: later streams are
     /// never even seen). Logged `Dropped` at once (no answer will come).
     WedgeConnection { keep_reading: bool },
+    /// read the whole request, send the response HEAD, then ABORT the response instead of completing it.
+    /// gRPC: HEADERS (200, application/grpc), ~20 ms later the abort (`how`) — no OK trailers were ever sent, so the
+    /// request is logged `Dropped`. HTTP/1 (whatever `how` says): `200` + `content-length: 16`, then the
+    /// connection is closed before any body byte; logged `Acked`, the status line being the acknowledgement.
+    AbortAfterHeaders { how: Abort },
+    /// the same after a fragment of the response body (gRPC: 3 of the 5 message-prefix bytes; HTTP/1: 4 of 16)
+    AbortMidBody { how: Abort },
     /// like `StallAfterHeaders`, but part of the response body is sent first (gRPC: 3 of the 5 bytes of
     /// the message prefix; HTTP/1: 4 of the 16 announced bytes)
     StallMidBody,
